@@ -122,6 +122,13 @@ func runHandshake(c *cctx, tran, role string, send []byte, then string, garbage 
 		}
 	}
 
+	// ... nor does it block option calls on the endpoint that made the connection or on the socket
+	if name := s.optionCallsReturn(); name != "" {
+		c.fail("C16/"+scen+"/option-call-blocked/"+what+"/"+s.where(), "hang",
+			"while a connection that had sent [%x] (%d bytes) and then %s was in its handshake, %s did not return within %v", send, len(send), then, name, watchdog)
+		return
+	}
+	c.count("option-calls-return-during-a-pending-handshake")
 	// a peer that never completes its handshake does not delay other peers
 	p2, err := s.newControl("P2(connecting while the hostile connection is pending)")
 	if err != nil {
